@@ -224,7 +224,7 @@ def show_dict(d, multipart):
     return '{' + ';'.join(out) + '}'
 
 
-ACC_ATTR = {'b': 'body', 'j': 'json', 'p': 'POST', 'f': 'forms', 'F': 'files'}
+ACC_ATTR = {'b': 'body', 'j': 'json', 'p': 'POST', 'f': 'forms', 'F': 'files', 'P': 'params'}   # 'P': oracle only
 BASES = ['ValueError', 'KeyError', 'RuntimeError', 'TypeError', 'IndexError', 'AssertionError', 'AttributeError']
 
 
